@@ -1754,7 +1754,7 @@ impl Property for C02 {
     type Scenario = Scenario;
 
     fn rule() -> String {
-        "seeded simulations of 2-3 hosts with 1-3 TCP connections (remote by IP / by name, same host via its own address, 127.0.0.1 / ::1; IPv4 and IPv6; tcp_capacity in {1,2,3,8,64}); each direction carries 0-4 KiB of position-coded bytes written in generated chunks (0/1-byte writes, write, try_write, writable+try_write) and read with generated buffer sizes (0, 1, ...) with peek / poll_peek interleaved, on plain, split, reunited streams, both directions concurrently; ends finish by shutdown, by dropping the owned write half, by dropping the stream after EOF or with unread data, or keep the stream. Schedules/faults: (i) turmoil's seeded latencies with min<max (segments overtake), hold/release and partition/repair imposed at seeded steps; (ii) owned delivery: every link held, the controller delivers one in-flight message per step through Sim::links in rounds, each round in a scenario-given permutation; `variants` enumerates ALL permutations of the rounds that hold 2-4 messages. Oracle: online prefix check of every read/peek against the bytes the peer's writes accepted, EOF only after the writer closed and everything was read, nothing after ConnectionReset, errors only when an abortive close or a partition allows them; liveness (no partition, holds released, no read side dropped before EOF, reader keeps reading) when nothing moves any more for ceil(max_latency/tick)+3 steps: every accepted byte read, writer not stuck, EOF observed. Non-trivial: a segment was delivered before an earlier one of the same direction, or a writer hit backpressure (WouldBlock / Pending), or a FIN was delivered while data of its direction was still in flight; distinct = digest of (mode, op kinds, outcome kinds). Added later: a throw-away connection before the judged one on the same address pair; hold-repair-release scripts; single writes of 64-90 KiB; shutdown followed by drop of the owned write half; writes whose first poll happens in a helper task that is cancelled while blocked (waker handover).".into()
+        "seeded simulations of 2-3 hosts with 1-3 TCP connections (remote by IP / by name, same host via its own address, 127.0.0.1 / ::1; IPv4 and IPv6; tcp_capacity in {1,2,3,8,64}); each direction carries 0-4 KiB of position-coded bytes written in generated chunks (0/1-byte writes, write, try_write, writable+try_write) and read with generated buffer sizes (0, 1, ...) with peek / poll_peek interleaved, on plain, split, reunited streams, both directions concurrently; ends finish by shutdown, by dropping the owned write half, by dropping the stream after EOF or with unread data, or keep the stream. Schedules/faults: (i) turmoil's seeded latencies with min<max (segments overtake), hold/release and partition/repair imposed at seeded steps; (ii) owned delivery: every link held, the controller delivers one in-flight message per step through Sim::links in rounds, each round in a scenario-given permutation; `variants` enumerates ALL permutations of the rounds that hold 2-4 messages. Oracle: online prefix check of every read/peek against the bytes the peer's writes accepted, EOF only after the writer closed and everything was read, nothing after ConnectionReset, errors only when an abortive close or a partition allows them; liveness (no partition, holds released, no read side dropped before EOF, reader keeps reading) when nothing moves any more for ceil(max_latency/tick)+3 steps: every accepted byte read, writer not stuck, EOF observed. Non-trivial: a segment was delivered before an earlier one of the same direction, or a writer hit backpressure (WouldBlock / Pending), or a FIN was delivered while data of its direction was still in flight; distinct = digest of (mode, op kinds, outcome kinds). Added later: a throw-away connection before the judged one on the same address pair; hold-repair-release scripts; single writes of 64-90 KiB; shutdown followed by drop of the owned write half; writes whose first poll happens in a helper task that is cancelled while blocked (waker handover). Round 11: an end that drops its stream while the peer's write side is still open but nothing the peer wrote is unread closes its outbound direction gracefully (the peer must still read everything and end-of-file although its own later write is reset; judged when that write certainly left after everything had arrived); several connections accepted by one listener (one local port on the accepting host).".into()
     }
     fn components_real() -> Vec<&'static str> {
         vec!["turmoil: Sim::step/host/hold/release/partition/repair/links + SentRef::deliver, net::TcpListener, net::TcpStream (read/write/try_write/writable/peek/poll_peek/shutdown/into_split/reunite/drop), host.rs stream table, reorder buffer and flow-control credits, top.rs links with seeded latencies"]
